@@ -239,9 +239,9 @@ Proof.
 Qed.
 
 (* ---------- the extension list ---------- *)
-(* what parse_tls_extensions reports for one extension: GREASE-looking types collapse to 0xfafa *)
+(* what the extraction loop sees of one extension: the wire type; no content for GREASE-looking types *)
 Definition view (e : N * ext_body) : N * ext_item :=
-  if grease_mask (fst e) then (GREASE_TYPE, ExtOther) else (fst e, item_of (snd e)).
+  if grease_mask (fst e) then (fst e, ExtOther) else (fst e, item_of (snd e)).
 
 Lemma encode_exts_cons e l : encode_exts (e :: l) = encode_ext e ++ encode_exts l.
 Proof. reflexivity. Qed.
